@@ -74,6 +74,9 @@ inline std::string shapeRecord(nifly::NifFile& nif, nifly::NiShape* shape, const
 	std::vector<Vector3> verts;
 	nif.GetVertsForShape(shape, verts);
 	bat::hv(o, "verts", verts);
+	// the pointer-returning overload answers from (and refreshes) a cached copy inside the shape
+	if (auto pv = nif.GetVertsForShape(shape))
+		bat::hv(o, "verts(cached copy)", *pv);
 	std::vector<Triangle> tris;
 	shape->GetTriangles(tris);
 	bat::hv(o, "tris", tris);
